@@ -1703,3 +1703,53 @@ Proof.
   intros d k' s I J. destruct (define_all_names_free reserved cs ds D d k' s I J) as [_ F].
   split; intros E; subst k'; contradiction.
 Qed.
+
+(* ------------------------------------------------------------------ *)
+(* Every decorated function is judged on its own                        *)
+
+Lemma eval_body_app reserved dicts a : forall b ns0,
+  eval_body reserved dicts (a ++ b) ns0 =
+  match eval_body reserved dicts a ns0 with
+  | Ok ns => eval_body reserved dicts b ns
+  | Err e => Err e
+  end.
+Proof.
+  induction a as [|[k m] r IH]; intros b ns0; cbn [app eval_body]; [reflexivity|].
+  destruct (eval_member reserved dicts ns0 m); [apply IH | reflexivity].
+Qed.
+
+(* a decorated function with a colliding name or a faulty signature makes
+   the class statement raise -- whatever the lines before it defined (legal
+   states included), whatever the earlier classes hold, whatever follows *)
+Theorem faulty_decorated_rejected reserved dicts osm pre k d post :
+  In (d_fname d) reserved \/ sig_faulty (d_params d) ->
+  exists e, define_class reserved dicts osm (pre ++ (k, SState d) :: post) = Err e.
+Proof.
+  intros F. destruct (define_class reserved dicts osm (pre ++ (k, SState d) :: post)) as [ns|e] eqn:D.
+  - exfalso. destruct (define_ok_decorated reserved dicts osm _ ns D k d) as [A B].
+    + apply in_or_app. right. left. reflexivity.
+    + destruct F; contradiction.
+  - exists e. reflexivity.
+Qed.
+
+(* .. and when the lines before it run through, with exactly the exception
+   the decorator gives for THIS function (a function of d alone) *)
+Theorem decorated_verdict_own reserved dicts osm pre ns k d post e :
+  eval_body reserved dicts pre [] = Ok ns -> construct reserved d = Err e ->
+  define_class reserved dicts osm (pre ++ (k, SState d) :: post) = Err e.
+Proof.
+  intros P C. unfold define_class. rewrite eval_body_app, P. cbn [eval_body eval_member].
+  rewrite C. reflexivity.
+Qed.
+
+(* in an accepted module EVERY decorated function of EVERY class has a free
+   name and a legal signature *)
+Theorem module_decorated_legal reserved cs ds : define_all reserved cs = Ok ds ->
+  forall c k d, In c cs -> In (k, SState d) (c_body c) ->
+    ~ In (d_fname d) reserved /\ ~ sig_faulty (d_params d).
+Proof.
+  intros D c k d I J. pose proof (define_all_spec reserved cs) as S. rewrite D in S.
+  destruct S as [_ P]. apply In_nth_error in I. destruct I as [i I].
+  destruct (P i c I) as [ns [Dc _]].
+  exact (define_ok_decorated reserved _ _ _ ns Dc k d J).
+Qed.
